@@ -32,7 +32,7 @@ RULE = (
     "evaluation = one complete consumption of the stream compared event by event; non-trivial = distinct (case, schedule) with >= 2 events"
 )
 ASSUMPTIONS = ["sequential consumption of the response stream", "events are the root values; the subscription field is resolved from them by its ordinary resolver"]
-BOUNDS = {"quick": {"events": 4, "early_bound": 1, "failures": "singles"}, "thorough": {"events": 5, "early_bound": 2, "failures": "singles+pairs"}}
+BOUNDS = {"quick": {"events": 4, "early_bound": 1, "failures": "singles"}, "thorough": {"events": 4, "early_bound": 2, "failures": "singles+pairs"}}
 TIME_CAP = {"quick": 120, "thorough": 1500}
 
 SELECTIONS = [
@@ -63,6 +63,8 @@ def cases(tier):
                     if tier == "quick" and n == b["events"] and (mode, rk) not in (("deferred", "sync"), ("immediate", "async")):
                         continue
                     yield {"kind": "stream", "sel": sel, "custom": custom, "n": n, "mode": mode, "resolver": rk}
+                    if si in (0, 2) and "tick" not in sel:
+                        yield {"kind": "stream", "sel": sel, "custom": custom, "n": n, "mode": mode, "resolver": rk, "sdl": "single"}
     for name in ("two-fields", "two-fields-fragment", "no-subscription-resolver", "query-operation", "mutation-operation", "blocking-runtime", "threadpool-runtime"):
         yield {"kind": "refusal", "name": name}
 
@@ -95,15 +97,18 @@ class Source:
 _SCHEMAS = {}
 
 
-def _schema(custom, rk):
+def _schema(custom, rk, sdl="full"):
     from mc.sched import harness as H
 
-    key = (json.dumps(custom, sort_keys=True), rk)
+    key = (json.dumps(custom, sort_keys=True), rk, sdl)
     s = _SCHEMAS.get(key)
     if s is None:
         from py_gql import build_schema
 
-        s = build_schema(H.SDL)
+        text = H.SDLS[sdl]
+        if sdl == "single":
+            text = text.replace("type Query { o(id: Int): Obj }", "type Query { ev: Obj }")
+        s = build_schema(text)
         for coord in sorted(custom):
             t, f = coord.split(".")
             fn = H._mk_async(coord) if custom[coord] == "async" else H._mk_sync(coord)
@@ -126,7 +131,8 @@ def _schema(custom, rk):
 
         if rk != "none":
             s.register_subscription("Subscription", "ev", sub)
-            s.register_subscription("Subscription", "tick", sub)
+            if sdl == "full":
+                s.register_subscription("Subscription", "tick", sub)
         s.validate()
         _SCHEMAS[key] = s
     return s
@@ -149,7 +155,7 @@ def _body(case, overrides, ch):
     loop = VLoop()
     world.loop = loop
     world.source = Source(world, loop, case["n"], case["mode"])
-    schema = _schema(case["custom"], case["resolver"])
+    schema = _schema(case["custom"], case["resolver"], case.get("sdl", "full"))
     doc = _DOCS.get(case["sel"])
     if doc is None:
         doc = _DOCS[case["sel"]] = parse("subscription { %s }" % case["sel"])
@@ -181,7 +187,7 @@ def _reference(case, overrides):
 
     from mc.sched import harness as H
 
-    schema = _schema({c: "sync" for c in case["custom"]}, "sync")
+    schema = _schema({c: "sync" for c in case["custom"]}, "sync", case.get("sdl", "full"))
     key = "q:" + case["sel"]
     doc = _DOCS.get(key)
     if doc is None:
@@ -203,7 +209,7 @@ def _paths(case):
 
     from mc.sched import harness as H
 
-    schema = _schema({c: "sync" for c in case["custom"]}, "sync")
+    schema = _schema({c: "sync" for c in case["custom"]}, "sync", case.get("sdl", "full"))
     world = H.World({})
     process_graphql_query(schema, parse("query { %s }" % case["sel"].replace("on Subscription", "on Query")), root=_event(0), context=world, executor_cls=BlockingExecutor, validators=[])
     out = []
@@ -322,7 +328,7 @@ def check_case(case, st):
         for choices, (obs, world) in explore(body, bound=b["early_bound"], st=st, max_execs=(2000 if st.tier == "quick" else 50000)):
             st.n("evaluations")
             if case["n"] >= 2:
-                st.nt((case["sel"], sorted(case["custom"].items()), case["n"], case["mode"], case["resolver"], sorted(ov.items()), choices))
+                st.nt((case.get("sdl", "full"), case["sel"], sorted(case["custom"].items()), case["n"], case["mode"], case["resolver"], sorted(ov.items()), choices))
             cls, detail = _compare(obs, ref, case["n"])
             st.outcome((cls, json.dumps(obs["results"])))
             if cls:
